@@ -407,7 +407,7 @@ func TestVF_C04(t *testing.T) {
 		i := i
 		cases = append(cases, vfCase{ID: fmt.Sprintf("wire-%d", i), Run: func(c *vfCtx) {
 			r := c.R
-			cfg := vfCfg{Dir: "up", Binary: true, Escape: i%2 == 0, Timeout: 60, Compress: r.Intn(3), Protocol: r.PickInt(0, 0, 2, 3),
+			cfg := vfCfg{Dir: "up", Binary: true, Escape: i%2 == 0, Timeout: 60, Compress: r.Intn(3), Protocol: []int{0, 1, 2, 3}[(i/2)%4], // 1: the chunk-by-chunk sender of old peers
 				Bufsize: int64(r.PickInt(1024, 65536, 10<<20)), Directory: r.Intn(2) == 0, Overwrite: r.Intn(2) == 0,
 				Seg: r.PickStr("all", "rand", "coalesce"), SegK: 4093, Direct: r.Intn(4) == 0}
 			specs := []vfFileSpec{
